@@ -599,6 +599,24 @@ class NEval:
     def fn_fresh(self, node):
         raise SkipClause("fresh")
 
+    def fn_is_exactly(self, node):
+        return self.ev(node.args[0]) == self.ev(node.args[1])
+
+    def fn_upd(self, node):
+        d = dict(self.ev(node.args[0])); d[self.ev(node.args[1])] = self.ev(node.args[2]); return d
+
+    def fn_rem(self, node):
+        d = dict(self.ev(node.args[0])); d.pop(self.ev(node.args[1]), None); return d
+
+    def fn_snoc(self, node):
+        return list(self.ev(node.args[0])) + [self.ev(node.args[1])]
+
+    def fn_nil(self, node):
+        return []
+
+    def fn_receiver(self, node):
+        return self.ev(node.args[0]).__self__
+
     def fn_allocated(self, node):
         raise SkipClause("allocated")
 
